@@ -69,11 +69,12 @@ class ParallelGradient:
 
         # The positions at which the spline will be evaluated are always the same.
         # They can therefore be calculated in advance
+        # They are stored for the radii of the local block, like bz
         self._thetaVals = np.empty(
-            [eta_grid[0].size, self._nz, order+1, self._nq])
-        for i, r in enumerate(eta_grid[0]):
+            [r.size, self._nz, order+1, self._nq])
+        for i, r_i in enumerate(r):
             self._getThetaVals(
-                r, self._thetaVals[i], eta_grid, constants.iota, constants.R0)
+                r_i, self._thetaVals[i], eta_grid, constants.iota, constants.R0)
 
     def getCoeffsFirstDeriv(self, n: int):
         b = np.zeros(n)
